@@ -401,6 +401,38 @@ func registerIntrinsics(ex *Executor) {
 	I["time.Now"] = func(ex *Executor, st *State, cc *CallCtx, args []Val) (Val, ctl) {
 		return ex.timeNow(st), cNext
 	}
+	// time.After(d): a timer channel that has already fired (value buffered) or has not fired yet — the
+	// environment's choice. A timer that never fires at all is excluded by the harness (d > 0 always elapses).
+	I["time.After"] = func(ex *Executor, st *State, cc *CallCtx, args []Val) (Val, ctl) {
+		fired := smt.Var(fmt.Sprintf("nd%d_%s", len(st.ND), "timerfired"), smt.Bool)
+		f := ex.branch(st, fired)
+		st.ND = append(st.ND[:len(st.ND):len(st.ND)], NDRec{Kind: "ext-bool", Tag: "time.After fired", T: fired})
+		o := ex.newObj(cc.Fn.Signature.Results().At(0).Type(), "timer")
+		d := &ChanData{Cap: 1}
+		if f {
+			d.Buf = []Val{ex.timeNow(st)}
+			st.note("timer fired")
+		} else {
+			st.note("timer pending")
+		}
+		st.Heap[o] = d
+		st.Ghost["timer.chan"] = ChanV{o}
+		return ChanV{o}, cNext
+	}
+	// verifFireTimers(): every pending timer fires now (used by the harness when nothing else can make progress)
+	I["@verifFireTimer"] = func(ex *Executor, st *State, cc *CallCtx, args []Val) (Val, ctl) {
+		c, ok := st.Ghost["timer.chan"].(ChanV)
+		if !ok {
+			return nil, cNext
+		}
+		d := ex.chanData(st, c)
+		if len(d.Buf) == 0 {
+			if !ex.trySend(st, c, ex.timeNow(st)) {
+				ex.setChan(st, c, &ChanData{Cap: 1, Buf: []Val{smt.IntC(1)}})
+			}
+		}
+		return nil, cNext
+	}
 	I["time.Since"] = func(ex *Executor, st *State, cc *CallCtx, args []Val) (Val, ctl) {
 		return smt.Sub(ex.timeNow(st), args[0].(*smt.Term)), cNext
 	}
